@@ -44,7 +44,7 @@ ASSUMPTIONS = ['which static kind a composed view type gets is decided by C++ me
                'kind combinations the unchanged library cannot compile are excluded (harness/c11_uncompilable.txt)']
 PARTIAL = ['no Lean transfer function (static knowledge and eval result checked against run-time objects and NumPy for every leaf kind, depth 1): '
            'eye, tri, tril/triu, max_pool2d/avg_pool2d, resize, sliding_window, compress, outer',
-           'where_static_sound excludes the operand-type class whereTripled (known finding C11.where-tripled-fixed-size, where_counterexample)',
+           'where: fixed / bounded size of the view are those of ONE broadcast operand since fix commit 9f8dcf6 (before it the decorator default tripled them: former known finding C11.where-tripled-fixed-size)',
            'the eval resolver model covers the default resolver with context None and no caller-supplied output (eval.hpp:706-879); the older '
            'resolver used by a bare array::eval(view) (eval.hpp:881-) is not modelled']
 MANIFEST = dict(
